@@ -1494,24 +1494,26 @@ func observeBand(b band.Band) string {
 var cBandRefused = simrt.RegisterCounter("op_linkadr_request_the_band_refuses")
 var cBandScribble = simrt.RegisterCounter("fault_owner_edits_band_results_it_was_handed")
 
+// ownerWriteIdx: what every caller may do with a slice it was handed - append
+// to it: the append lands in the spare capacity behind the slice, if there is
+// any, and that memory must not be anybody else's. The elements the caller
+// WAS given are left alone: whether results are the caller's to edit is in no
+// statement (a library may hand out capacity-clipped windows on a table it
+// never writes again; such a table is not mutable state of any band).
 func ownerWriteIdx(s []int, r *sim.Rand) {
-	if r.Intn(2) == 0 {
-		s = s[:cap(s)]
-	}
-	for i := range s {
+	n := len(s)
+	s = s[:cap(s)]
+	for i := n; i < len(s); i++ {
 		s[i] = 64 + i
 	}
 }
 
-func ownerWriteU32(s []uint32) {
-	for i := range s {
-		s[i] = 1
-	}
-}
-
-func ownerWriteMask(m *lorawan.ChMask) {
-	for i := range m {
-		m[i] = !m[i]
+func ownerWriteMasks(m []lorawan.ChMask) {
+	spare := m[len(m):cap(m)]
+	for i := range spare {
+		for j := range spare[i] {
+			spare[i][j] = !spare[i][j]
+		}
 	}
 }
 
@@ -1521,13 +1523,8 @@ func (bw *bandWatch) scribble(r *sim.Rand) {
 		ownerWriteIdx(s, r)
 	}
 	if cf := bw.mine.GetCFList(band.LoRaWAN_1_0_4); cf != nil {
-		switch pl := cf.Payload.(type) {
-		case *lorawan.CFListChannelPayload:
-			ownerWriteU32(pl.Channels[:])
-		case *lorawan.CFListChannelMaskPayload:
-			for i := range pl.ChannelMasks {
-				ownerWriteMask(&pl.ChannelMasks[i])
-			}
+		if pl, ok := cf.Payload.(*lorawan.CFListChannelMaskPayload); ok && pl != nil {
+			ownerWriteMasks(pl.ChannelMasks)
 		}
 	}
 	for _, pl := range bw.mine.GetLinkADRReqPayloadsForEnabledUplinkChannelIndices([]int{0, 1, 2}) {
@@ -1555,8 +1552,8 @@ func (bw *bandWatch) step(r *sim.Rand) {
 	}
 	switch r.Intn(4) {
 	case 3:
-		// the owner of one instance edits results it was handed (sorts, filters
-		// in place, appends): they are its own memory
+		// the owner of one instance appends to results it was handed (the spare
+		// capacity behind them is nobody else's memory)
 		simrt.Count(cBandScribble)
 		quiet(func() { bw.scribble(r) })
 	case 0:
